@@ -12,8 +12,13 @@ def sh(cmd, **kw):
 if not os.path.exists(WT):
     sh("git -C /repo worktree add -f --detach %s HEAD" % WT)
 sh("git -C %s checkout -q --detach %s && git -C %s checkout -- . && git -C %s clean -fdq" % (WT, subprocess.check_output(["git","-C","/repo","rev-parse","HEAD"],text=True).strip(), WT, WT))
-if not os.path.exists(PLAIN + "/build.ninja"):
-    sh('cmake -G Ninja -S %s -B %s -DCMAKE_BUILD_TYPE=Release -DCMAKE_CXX_FLAGS="-Wno-error" -DINTERVAL_LIB=gaol -DLP_LIB=none' % (WT, PLAIN))
+def configure_plain():
+    if not os.path.exists(PLAIN + "/build.ninja"):
+        sh('cmake -G Ninja -S %s -B %s -DCMAKE_BUILD_TYPE=Release -DCMAKE_CXX_FLAGS="-Wno-error" -DINTERVAL_LIB=gaol -DLP_LIB=none' % (WT, PLAIN))
+# a patch of the third-party sources (unpacked and patched when cmake configures) needs fresh build directories
+THIRD = "/3rd/" in open(seed + "/patch.diff").read()
+if THIRD: shutil.rmtree(PLAIN, ignore_errors=True); shutil.rmtree("/tmp/seedwt_hooks" + SLOT, ignore_errors=True)
+else: configure_plain()
 res = {"seed": seed}
 try: HOOKS_DEMO = json.load(open(seed + "/meta.json")).get("demo_build") == "hooks"
 except Exception: HOOKS_DEMO = False
@@ -39,6 +44,7 @@ def build_demo():
 # 1. with the patch
 rc, out = sh("git -C %s apply %s/patch.diff" % (WT, seed)); res["applies"] = rc == 0
 if rc: print(json.dumps(res), out); sys.exit(1)
+configure_plain()
 FAST = bool(os.environ.get("SEEDTEST_FAST"))     # regression mode: only the checks (the seed was confirmed before)
 if not FAST:
     rc, out = sh("ninja -C %s check" % PLAIN); res["tests_pass_with_patch"] = "100% tests passed" in out and "62" in out.split("100% tests passed")[-1][:40]
@@ -59,6 +65,7 @@ for pid in props:
     res["checks"][pid] = {"exit": p.returncode, "violations": len(viol), "first": detail, "wall_s": round(time.time() - t0, 1), "summary": p.stdout.strip().splitlines()[-1][:200] if p.stdout.strip() else ""}
 # 3. without the patch
 sh("git -C %s checkout -- ." % WT)
+if THIRD: shutil.rmtree(PLAIN, ignore_errors=True); configure_plain()
 if not FAST:
     rc, out = sh("ninja -C %s ibex" % PLAIN)
     res["demo_without_patch"] = build_demo()[0]
